@@ -20,7 +20,7 @@ CLAIMED = {
     "C04": ("Coq theorems C04_multiply / C04_outputs (every pair node of the product circuit = Kronecker product of the operands' values) + "
             "correspondence of multiply_m with cirkit multiply inside Coq + product oracle on compiled circuits",
             "Machine-checked proof on the semantic model for all circuits; sampled correspondence and oracle tie it to the code.",
-            "The Kronecker x Kronecker permutation rule and the per-input-layer product rules are checked per instance (correspondence), not proved."),
+            "C04_multiply_executable proves the executable operator multiply_m value-correct with every per-layer rule (Embedding, Polynomial, sum x sum column permutation, sorted Hadamard pairing, Kronecker x Kronecker permutation layer, disjoint joins); Categorical and Gaussian product rules (transcendental) are checked per instance only."),
     "C05": ("Coq theorems C05_differentiate / C05_outputs_sorted against an abstract iterated partial-derivative operator + "
             "correspondence of differentiate_m with cirkit differentiate inside Coq + autograd oracle on compiled circuits",
             "Machine-checked proof on the semantic model (any order through the abstraction); sampled correspondence and oracle tie it to the code.",
@@ -45,7 +45,7 @@ CLAIMED = {
             "The optimisation rewrite rules are not proved (correspondence only)."),
     "C09": ("Model operators' refusal codes (coq/Ops.v res_code) compared with cirkit's exceptions on valid and malformed operands + verified structural predicates (C08) on results",
             "Refusals and result structure are decided by the executable model operators and the verified predicates; compared with the implementation on generated valid/invalid operands.",
-            "Result-structure preservation is checked per instance with the verified predicates rather than proved once."),
+            "Result structure is proved for all six executable operators (C09_integrate_result, C09_multiply_result, C09_differentiate_result, evidence, conjugate, concatenate) and additionally checked per instance with the verified predicates on the implementation's results."),
     "C10": ("Coq check that derived circuits introduce no learnable leaves (learn_subset on exported circuits) + model denotation at the CURRENT tensor values after random "
             "histories of in-place updates / resets / load_state_dict + defining-relation oracles + storage-identity check",
             "The operator theorems (C03-C07) are quantified over all parameter values, so the relations hold after any update provided derived circuits read the operands' tensors; "
